@@ -22,7 +22,7 @@ open GitAi GitAi.Wrapper GitAi.Cli GitAi.Journal GitAi.C06
 /-- **C07 dichotomy.** For every argv, every world and EVERY fault plan (any number of `fail` / `panic` /
     `kill` faults at any internal steps), with hook programs consistent with the extracted inventories
     (`WF`) and F2 (`K`), the outcome is one of:
-    (a)  git ran on `to_invocation_vec(parse argv)` in a world whose `U` is the original one, the final `U` is
+    (a)  git ran on `to_invocation_vec(H.alias (parse argv))` in a world whose `U` is the original one, the final `U` is
          what git left, and the wrapper's status IS git's status;
     (a') the same, but the wrapper process was killed after git had finished (its status is the signal's);
     (b)  git did not run: the wrapper exited before git (refusal or a panic outside the guards) with a
@@ -31,42 +31,42 @@ open GitAi GitAi.Wrapper GitAi.Cli GitAi.Journal GitAi.C06
 theorem fault_dichotomy (K : GitKernel) (H : Hooks) (hH : WF H) (argv : List Str) (w : World) (plan : Plan) :
     let o := run K H argv w plan
     let g := K.G o.gitArgv [] o.gitWorld
-    o.gitArgv = toVec (parse argv) ∧
+    o.gitArgv = toVec (H.alias (parse argv)) ∧
     ((o.kind = .gitRan ∧ o.gitWorld.u = w.u ∧ o.world.u = g.world.u ∧ o.status = g.status ∧ o.out = g.out) ∨
      (o.kind = .killedAfterGit ∧ o.gitWorld.u = w.u ∧ o.world.u = g.world.u ∧ o.status = killStatus) ∨
      ((o.kind = .refused ∨ o.kind = .crashed) ∧ o.world.u = w.u ∧ o.status ≠ 0 ∧ o.diag = true) ∨
      (o.kind = .killedBeforeGit ∧ o.world.u = w.u ∧ o.status ≠ 0)) := by
   intro o g
   refine ⟨child_argv K H argv w plan, ?_⟩
-  have hu0 := exec_u K (hH.prologue_confined (parse argv)) ⟨w, plan, false⟩
-  have hd0 := exec_diag K (H.prologue (parse argv)) ⟨w, plan, false⟩
-  have hz0 := exec_exit_nz K (hH.prologue_exits_nz (parse argv)) ⟨w, plan, false⟩
+  have hu0 := exec_u K (hH.prologue_confined (H.alias (parse argv))) ⟨w, plan, false⟩
+  have hd0 := exec_diag K (H.prologue (H.alias (parse argv))) ⟨w, plan, false⟩
+  have hz0 := exec_exit_nz K (hH.prologue_exits_nz (H.alias (parse argv))) ⟨w, plan, false⟩
   simp only [g, o, run]
-  generalize execProg K (H.prologue (parse argv)) ⟨w, plan, false⟩ = r0 at *
+  generalize execProg K (H.prologue (H.alias (parse argv))) ⟨w, plan, false⟩ = r0 at *
   obtain ⟨e0, s0⟩ := r0
   cases e0 with
   | killed => exact Or.inr (Or.inr (Or.inr ⟨rfl, hu0, by show killStatus ≠ 0; decide⟩))
   | panicked => exact Or.inr (Or.inr (Or.inl ⟨Or.inr rfl, hu0, (by show panicStatus ≠ 0; decide), hd0 (Or.inl rfl)⟩))
   | exited c => exact Or.inr (Or.inr (Or.inl ⟨Or.inl rfl, hu0, hz0 c rfl, hd0 (Or.inr ⟨c, rfl⟩)⟩))
   | finished =>
-    have hu1 := exec_u K (hH.pre_confined (parse argv)) s0
-    have hd1 := exec_diag K (H.pre (parse argv)) s0
-    have hz1 := exec_exit_nz K (hH.pre_exits_nz (parse argv)) s0
+    have hu1 := exec_u K (hH.pre_confined (H.alias (parse argv))) s0
+    have hd1 := exec_diag K (H.pre (H.alias (parse argv))) s0
+    have hz1 := exec_exit_nz K (hH.pre_exits_nz (H.alias (parse argv))) s0
     simp only []
-    generalize execProg K (H.pre (parse argv)) s0 = r1 at *
+    generalize execProg K (H.pre (H.alias (parse argv))) s0 = r1 at *
     obtain ⟨e1, s1⟩ := r1
     have hs1u : s1.w.u = w.u := by rw [hu1]; exact hu0
-    have hpu := exec_u K (hH.post_confined (parse argv) (K.G (toVec (parse argv)) [] s1.w).status)
-      ⟨(K.G (toVec (parse argv)) [] s1.w).world, s1.plan, s1.diag⟩
-    have hpe := fun c => exec_noexit K (hH.post_noexit (parse argv) (K.G (toVec (parse argv)) [] s1.w).status)
-      ⟨(K.G (toVec (parse argv)) [] s1.w).world, s1.plan, s1.diag⟩ c
+    have hpu := exec_u K (hH.post_confined (H.alias (parse argv)) (K.G (toVec (H.alias (parse argv))) [] s1.w).status)
+      ⟨(K.G (toVec (H.alias (parse argv))) [] s1.w).world, s1.plan, s1.diag⟩
+    have hpe := fun c => exec_noexit K (hH.post_noexit (H.alias (parse argv)) (K.G (toVec (H.alias (parse argv))) [] s1.w).status)
+      ⟨(K.G (toVec (H.alias (parse argv))) [] s1.w).world, s1.plan, s1.diag⟩ c
     cases e1 with
     | killed => exact Or.inr (Or.inr (Or.inr ⟨rfl, hs1u, by show killStatus ≠ 0; decide⟩))
     | exited c => exact Or.inr (Or.inr (Or.inl ⟨Or.inl rfl, hs1u, hz1 c rfl, hd1 (Or.inr ⟨c, rfl⟩)⟩))
     | finished =>
       simp only []
-      generalize execProg K (H.post (parse argv) (K.G (toVec (parse argv)) [] s1.w).status)
-        ⟨(K.G (toVec (parse argv)) [] s1.w).world, s1.plan, s1.diag⟩ = r2 at *
+      generalize execProg K (H.post (H.alias (parse argv)) (K.G (toVec (H.alias (parse argv))) [] s1.w).status)
+        ⟨(K.G (toVec (H.alias (parse argv))) [] s1.w).world, s1.plan, s1.diag⟩ = r2 at *
       obtain ⟨e2, s2⟩ := r2
       cases e2 with
       | killed => exact Or.inr (Or.inl ⟨rfl, hs1u, hpu, rfl⟩)
@@ -75,8 +75,8 @@ theorem fault_dichotomy (K : GitKernel) (H : Hooks) (hH : WF H) (argv : List Str
       | panicked => exact Or.inl ⟨rfl, hs1u, hpu, rfl, rfl⟩
     | panicked =>
       simp only []
-      generalize execProg K (H.post (parse argv) (K.G (toVec (parse argv)) [] s1.w).status)
-        ⟨(K.G (toVec (parse argv)) [] s1.w).world, s1.plan, s1.diag⟩ = r2 at *
+      generalize execProg K (H.post (H.alias (parse argv)) (K.G (toVec (H.alias (parse argv))) [] s1.w).status)
+        ⟨(K.G (toVec (H.alias (parse argv))) [] s1.w).world, s1.plan, s1.diag⟩ = r2 at *
       obtain ⟨e2, s2⟩ := r2
       cases e2 with
       | killed => exact Or.inr (Or.inl ⟨rfl, hs1u, hpu, rfl⟩)
@@ -88,9 +88,9 @@ theorem fault_dichotomy (K : GitKernel) (H : Hooks) (hH : WF H) (argv : List Str
     original one" means: exactly what plain git does in the ORIGINAL world — same `U`, status, stdout —
     however corrupted `A` is and whatever faults hit the hooks. -/
 theorem fault_dichotomy_vs_plain_git (K : GitKernel) (H : Hooks) (hH : WF H) (argv : List Str) (w : World)
-    (plan : Plan) (hI : K.indep (toVec (parse argv))) :
+    (plan : Plan) (hI : K.indep (toVec (H.alias (parse argv)))) :
     let o := run K H argv w plan
-    let g := K.G (toVec (parse argv)) [] w
+    let g := K.G (toVec (H.alias (parse argv))) [] w
     (o.kind = .gitRan → o.world.u = g.world.u ∧ o.status = g.status ∧ o.out = g.out) ∧
     (o.kind = .killedAfterGit → o.world.u = g.world.u) := by
   intro o g
@@ -102,8 +102,8 @@ theorem fault_dichotomy_vs_plain_git (K : GitKernel) (H : Hooks) (hH : WF H) (ar
     have hw : o.gitWorld = ⟨w.u, o.gitWorld.a⟩ := by
       cases hs : o.gitWorld with
       | mk u a => simp [hs] at hu; simp [hu]
-    have := K.frame_indep (toVec (parse argv)) w.u o.gitWorld.a w.a hI
-    rw [show o.gitArgv = toVec (parse argv) from ha, hw]
+    have := K.frame_indep (toVec (H.alias (parse argv))) w.u o.gitWorld.a w.a hI
+    rw [show o.gitArgv = toVec (H.alias (parse argv)) from ha, hw]
     exact this
   rcases hd with ⟨_, hu, hwu, hs, ho⟩ | ⟨hk, hu, hwu, _⟩ | ⟨hk, _⟩ | ⟨hk, _⟩
   · refine ⟨fun _ => ?_, fun h => ?_⟩
@@ -312,19 +312,19 @@ theorem later_commands_work (K : GitKernel) (H : Hooks) (hH : WF H) {C : Type} (
     (argv : List Str) (w : World) (plan : Plan) (argv2 : List Str) :
     (run K H argv2 (run K H argv w plan).world []).kind = .gitRan := by
   generalize (run K H argv w plan).world = w'
-  have h0 := hPro (parse argv2) w' false
-  have hp0 := exec_plan_nil K (H.prologue (parse argv2)) ⟨w', [], false⟩ rfl
+  have h0 := hPro (H.alias (parse argv2)) w' false
+  have hp0 := exec_plan_nil K (H.prologue (H.alias (parse argv2))) ⟨w', [], false⟩ rfl
   simp only [run]
-  generalize execProg K (H.prologue (parse argv2)) ⟨w', [], false⟩ = r0 at *
+  generalize execProg K (H.prologue (H.alias (parse argv2))) ⟨w', [], false⟩ = r0 at *
   obtain ⟨e0, s0⟩ := r0
   simp only [] at h0
   subst h0
   simp only []
   -- the pre hooks do not exit
-  have hne : ∀ c, (execProg K (H.pre (parse argv2)) s0).1 ≠ .exited c := by
+  have hne : ∀ c, (execProg K (H.pre (H.alias (parse argv2))) s0).1 ≠ .exited c := by
     intro c
-    by_cases hc : (parse argv2).command = some commitWord
-    · have hpc := hH.pre_confined (parse argv2)
+    by_cases hc : (H.alias (parse argv2)).command = some commitWord
+    · have hpc := hH.pre_confined (H.alias (parse argv2))
       rw [M.pre_commit _ hc] at hpc ⊢
       split
       · simp [execProg]
@@ -336,27 +336,27 @@ theorem later_commands_work (K : GitKernel) (H : Hooks) (hH : WF H) {C : Type} (
         rw [hs0]
         exact preCommit_no_exit K hK _ _ _ _ _ _ hTol hpc _ _ c
     · exact exec_noexit K (hH.pre_exit_only_commit _ hc) s0 c
-  have hk1 := exec_not_killed_nil K (H.pre (parse argv2)) s0 hp0
-  have hp1 := exec_plan_nil K (H.pre (parse argv2)) s0 hp0
-  generalize execProg K (H.pre (parse argv2)) s0 = r1 at *
+  have hk1 := exec_not_killed_nil K (H.pre (H.alias (parse argv2))) s0 hp0
+  have hp1 := exec_plan_nil K (H.pre (H.alias (parse argv2))) s0 hp0
+  generalize execProg K (H.pre (H.alias (parse argv2))) s0 = r1 at *
   obtain ⟨e1, s1⟩ := r1
-  have hpk := exec_not_killed_nil K (H.post (parse argv2) (K.G (toVec (parse argv2)) [] s1.w).status)
-    ⟨(K.G (toVec (parse argv2)) [] s1.w).world, s1.plan, s1.diag⟩ hp1
+  have hpk := exec_not_killed_nil K (H.post (H.alias (parse argv2)) (K.G (toVec (H.alias (parse argv2))) [] s1.w).status)
+    ⟨(K.G (toVec (H.alias (parse argv2))) [] s1.w).world, s1.plan, s1.diag⟩ hp1
   cases e1 with
   | killed => exact absurd rfl hk1
   | exited c => exact absurd rfl (hne c)
   | finished =>
     simp only []
-    generalize execProg K (H.post (parse argv2) (K.G (toVec (parse argv2)) [] s1.w).status)
-      ⟨(K.G (toVec (parse argv2)) [] s1.w).world, s1.plan, s1.diag⟩ = r2 at *
+    generalize execProg K (H.post (H.alias (parse argv2)) (K.G (toVec (H.alias (parse argv2))) [] s1.w).status)
+      ⟨(K.G (toVec (H.alias (parse argv2))) [] s1.w).world, s1.plan, s1.diag⟩ = r2 at *
     obtain ⟨e2, s2⟩ := r2
     cases e2 with
     | killed => exact absurd rfl hpk
     | _ => rfl
   | panicked =>
     simp only []
-    generalize execProg K (H.post (parse argv2) (K.G (toVec (parse argv2)) [] s1.w).status)
-      ⟨(K.G (toVec (parse argv2)) [] s1.w).world, s1.plan, s1.diag⟩ = r2 at *
+    generalize execProg K (H.post (H.alias (parse argv2)) (K.G (toVec (H.alias (parse argv2))) [] s1.w).status)
+      ⟨(K.G (toVec (H.alias (parse argv2))) [] s1.w).world, s1.plan, s1.diag⟩ = r2 at *
     obtain ⟨e2, s2⟩ := r2
     cases e2 with
     | killed => exact absurd rfl hpk
